@@ -197,7 +197,8 @@ GenerateFails(e) ==
       ref == GenRef(b, now, rings, ops)
       g == GObs(e)
   IN
-  (IF On("C10") THEN F(P_C10(b, now, rings, ops, g, MapOfList(e.hdr_after), MapOfList(e.clm_after)), "C10.token")
+  (IF On("C10") /\ ~(Has(e, "lite") /\ e.lite = 1)      \* "lite" generate events carry digests instead of maps (C05/C06 volume stages)
+        THEN F(P_C10(b, now, rings, ops, g, MapOfList(e.hdr_after), MapOfList(e.clm_after)), "C10.token")
                      \cup F(P_GenSig(b, now, rings, ops, g), "C10.sig") ELSE {})
   \cup (IF On("C03") THEN F(P_C03g(b, now, rings, g), "C03.generate") ELSE {})
   \cup (IF On("C02") THEN F(P_C02g(b, now, rings, g), "C02.generate") ELSE {})
